@@ -71,6 +71,7 @@ def work(item):
     r, q, z, v = coords(SHAPE)
     twists = [Fr(0)] * nr if iota_mode == 'zero' else [Fr(3, 4), Fr(5, 12), Fr(8, 15)][:nr]
     nranks = int(np.prod(nprocs))
+    nprocs_box = [tuple(nprocs)]
     st = {}
 
     def body(ctx):
@@ -92,8 +93,9 @@ def work(item):
         def rankfn(comm):
             with warnings.catch_warnings():
                 warnings.simplefilter('ignore')
-                h4 = m['layout'].getLayoutHandler(comm, dict(LAY4), list(nprocs), eta)
-                sw = m['layout'].LayoutSwapper(comm, [dict(d) for d in LAY3], [list(nprocs), nprocs[0], nprocs[1]], eta[:3], 'v_parallel_1d')
+                np_ = nprocs_box[0]
+                h4 = m['layout'].getLayoutHandler(comm, dict(LAY4), list(np_), eta)
+                sw = m['layout'].LayoutSwapper(comm, [dict(d) for d in LAY3], [list(np_), np_[0], np_[1]], eta[:3], 'v_parallel_1d')
             rec = []
             if op == 'flux':
                 g = m['grid'].Grid(eta, [None, qb, zb, None], h4, 'flux_surface', comm=comm, dtype=object)
@@ -117,7 +119,7 @@ def work(item):
                 va.step = step
 
                 class PG:
-                    def parallel_gradient(self, phi_r, i, der):
+                    def parallel_gradient(self, phi_r, i, der, *more, **kw):
                         gi = P.where(phi_r[0, 0])          # global (r, theta, z) of the slice's first entry
                         rec.append(('pg', gi[0], i, der.shape))
                         for a in range(der.shape[0]):
@@ -130,6 +132,23 @@ def work(item):
                 if op == 'vpar_keep':
                     del rec[:]
                     va.gridStepKeepGradient(g, pgv, K(Fr(1, 2)))
+            elif op.startswith('vpar_pg'):
+                # the REAL ParallelGradient (finite-difference order = last character) driven by the real gridStep; only the 1-D
+                # advection step is a recorder.  The speeds handed to it are compared with those of a one-process run.
+                order = int(op[-1])
+                g = m['grid'].Grid(eta, [None] * 4, h4, 'v_parallel', comm=comm, dtype=object)
+                ph = m['grid'].Grid(eta[:3], [None] * 3, sw, 'v_parallel_1d', comm=comm, dtype=object)
+                dist.fill_grid(g, F.arr)
+                dist.fill_grid(ph, P.arr)
+                va = adv.VParallelAdvection.__new__(adv.VParallelAdvection)
+
+                def step(f, dt_, c, rr):
+                    rec.append(('step', F.where(f[0]), c, rr))
+                va.step = step
+                pgr = adv.ParallelGradient(qb, eta, sw.getLayout('v_parallel_1d'), consts, order)
+                L = h4.getLayout('v_parallel')
+                pgv = np.empty([L.shape[0], nz, nq], dtype=object)
+                va.gridStep(g, ph, pgr, pgv, K(Fr(1, 2)))
             elif op in ('pol', 'pol_keep'):
                 g = m['grid'].Grid(eta, [None] * 4, h4, 'poloidal', comm=comm, dtype=object)
                 ph = m['grid'].Grid(eta[:3], [None] * 3, sw, 'poloidal', comm=comm, dtype=object)
@@ -157,6 +176,14 @@ def work(item):
                 L = h4.getLayout(lay)
                 return ('init', L, np.array(g.getAllData(), dtype=object))
             return ('rec', h4, rec)
+        if op.startswith('vpar_pg'):
+            # serial reference first (same code, one process), then the distributed run
+            saved = (nprocs_box[0],)
+            nprocs_box[0] = (1, 1)
+            try:
+                st['serial'] = simmpi.World(1).run(rankfn)
+            finally:
+                nprocs_box[0] = saved[0]
         return simmpi.World(nranks).run(rankfn)
 
     for ctx, (kind, val) in symx.explore(body, timeout_ms=60000, index_cap=32):
@@ -214,6 +241,20 @@ def work(item):
             if len(seen) != nr * nq * nz:
                 bad.append(z3.BoolVal(True))
                 where.append(('vpar: %d of %d lines advanced' % (len(seen), nr * nq * nz), -1, -1, -1))
+        elif op.startswith('vpar_pg'):
+            ref = {}
+            for (_, h4s, recs) in st['serial']:
+                for (_, gidx, c, rr) in recs:
+                    ref[tuple(gidx[:3])] = c
+            for rk, (_, h4, rec) in enumerate(val):
+                for (_, gidx, c, rr) in rec:
+                    key = tuple(gidx[:3])
+                    seen.add(key)
+                    bad.append(toreal(zt(K(c) if c is not None else K(10 ** 9))) != toreal(zt(K(ref[key]))))
+                    where.append(('v-parallel speed (real parallel gradient) differs from the one-process run at (r,theta,z)', rk, key, -1))
+            if len(seen) != nr * nq * nz:
+                bad.append(z3.BoolVal(True))
+                where.append(('vpar_pg: %d of %d lines advanced' % (len(seen), nr * nq * nz), -1, -1, -1))
         elif op in ('pol', 'pol_keep'):
             for rk, (_, h4, rec) in enumerate(val):
                 for (gidx, ptag, vv) in rec:
@@ -328,7 +369,7 @@ def float_replay(allm, item, hits):
                     va.step = lambda f, dt_, c, rr: f.__setitem__(slice(None), f * 0 + c + 1000 * rr)
 
                     class PG:
-                        def parallel_gradient(self, phi_r, i, der):
+                        def parallel_gradient(self, phi_r, i, der, *more, **kw):
                             der[:] = phi_r * 7.0 + i * 0
                     L = h4.getLayout('v_parallel')
                     pgv = np.empty([L.shape[0], nz, nq])
@@ -336,6 +377,18 @@ def float_replay(allm, item, hits):
                     if op == 'vpar_keep':
                         dist.fill_grid(g, Fd)
                         va.gridStepKeepGradient(g, pgv, 0.5)
+                    return L, g.getAllData().copy()
+                if op.startswith('vpar_pg'):
+                    g = m['grid'].Grid(eta, [None] * 4, h4, 'v_parallel', comm=comm)
+                    ph = m['grid'].Grid(eta[:3], [None] * 3, sw, 'v_parallel_1d', comm=comm)
+                    dist.fill_grid(g, Fd)
+                    dist.fill_grid(ph, Pd)
+                    va = adv.VParallelAdvection.__new__(adv.VParallelAdvection)
+                    va.step = lambda f, dt_, c, rr: f.__setitem__(slice(None), f * 0 + c)
+                    pgr = adv.ParallelGradient(qb, eta, sw.getLayout('v_parallel_1d'), FC, int(op[-1]))
+                    L = h4.getLayout('v_parallel')
+                    pgv = np.empty([L.shape[0], nz, nq])
+                    va.gridStep(g, ph, pgr, pgv, 0.5)
                     return L, g.getAllData().copy()
                 if op in ('pol', 'pol_keep'):
                     g = m['grid'].Grid(eta, [None] * 4, h4, 'poloidal', comm=comm)
@@ -404,6 +457,10 @@ def main():
         for op in ('flux', 'vpar', 'vpar_keep', 'pol', 'pol_keep', 'init_flux_surface', 'init_poloidal', 'init_v_parallel'):
             for iota in (('zero', 'radial') if op == 'flux' else ('radial',)):
                 items.append((op, grid, iota, None))
+    for grid in ([(1, 2), (2, 2)] if quick else [(1, 2), (2, 2), (1, 3), (2, 3)]):
+        for order in ((3, 6) if quick else (2, 3, 4, 5, 6)):
+            if order + 1 < SHAPE[2]:
+                items.append(('vpar_pg%d' % order, grid, 'radial', None))
     for cn in CANARIES:
         items.append((cn[3], (2, 2), 'radial', cn[:3]))
     caught = {}
